@@ -246,7 +246,7 @@ struct c12_session : public vsim_session {
       o << "ENDCASE" << (a.size() ? " " + a[0] : "") << "\n";
       if (proxy) { delete proxy; proxy = NULL; }
       eng.perm.clear(); eng.assign.clear(); eng.script_forces.clear(); eng.gauss.clear(); eng.gauss_pos = 0;
-      eng.smp = "serial"; eng.nthreads = 1; eng.prefix = ""; eng.has_cell = false;
+      eng.smp = "serial"; eng.nthreads = 1; eng.prefix = ""; eng.has_cell = false; eng.restart_freq = 0;
       return true;
     }
     return false;
